@@ -166,7 +166,8 @@ def package_sources(scratch, tier):
 def compile_package(bindir, scratch, ent, outdir=None):
     outdir = outdir or os.path.join(scratch, "pkg")
     os.makedirs(outdir, exist_ok=True)
-    out = os.path.join(outdir, re.sub(r"[^A-Za-z0-9]+", "_", ent["name"]) + ".dora-package")
+    out = os.path.join(outdir, "%s-%s.dora-package" % (re.sub(r"[^A-Za-z0-9]+", "_", ent["name"]),
+                                                        hashlib.sha1(ent["name"].encode()).hexdigest()[:8]))
     cmd = [os.path.join(bindir, "dora"), "compile", "-c", ent["src"], "-o", out]
     if ent["mode"] == "boots":
         cmd.append("--internal-compile-boots")
@@ -193,6 +194,7 @@ def make_packages(c, bindir, scratch, tier):
             skipped.append(e["name"])   # corpus file that is not a stand-alone program
         else:
             e["size"] = os.path.getsize(e["pkg"])
+            e["sha"] = sha(e["pkg"])
             good.append(e)
     return good, skipped
 
@@ -214,7 +216,7 @@ def absorb(c, rep, part, extra_replay=None):
 
 def part_codec(c, harness, tier):
     methods = emit_methods()
-    rep = seq.run_seqmc(harness, "codec", {"methods": ",".join(methods), "tier": tier}, timeout=3000)
+    rep = seq.run_seqmc(harness, "codec", {"methods": ",".join(methods), "tier": tier, "hang-s": 900}, timeout=6000)
     absorb(c, rep, "codec")
     cn = rep["counters"]
     uncovered = [m for m in rep["extra"].get("uncovered", "").split(",") if m]
@@ -263,6 +265,162 @@ def part_program(c, harness, pkgs, scratch):
         "distinct_opcodes_in_real_code": cn.get("distinct_opcodes_in_real_code", 0),
         "trailing_byte_refused": cn.get("trailing_byte_refused", 0),
     }
+
+
+# ---------------------------------------------------------------------------------------------
+# part 1b: the reader written in Dora (pkgs/boots/bytecode/reader.dora) on the same bytes
+
+def dora_twin_module(cases_bin):
+    """Source of a Dora test module that reads cases.bin, decodes every function with the boots package's own
+    BytecodeIterator and prints one checksum line per case.  The match arms are generated from the enum in
+    the CURRENT pkgs/boots/bytecode/instruction.dora."""
+    text = open(os.path.join(REPO, "pkgs", "boots", "bytecode", "instruction.dora"), encoding="utf-8").read()
+    m = re.search(r"pub enum BytecodeInstruction \{(.*?)\n\}", text, re.S)
+    if not m:
+        raise MachineryError("cannot find enum BytecodeInstruction in instruction.dora")
+    arms = []
+    for line in m.group(1).splitlines():
+        line = line.strip().rstrip(",")
+        if not line or line.startswith("//"):
+            continue
+        mm = re.match(r"^(\w+)(?:\((.*)\))?$", line)
+        if not mm:
+            raise MachineryError("cannot parse enum variant %r" % line)
+        name, fields = mm.group(1), mm.group(2)
+        if not fields:
+            arms.append("            BytecodeInstruction::%s => h," % name)
+            continue
+        # split on commas outside brackets
+        parts, depth, cur = [], 0, ""
+        for ch in fields:
+            if ch == "[":
+                depth += 1
+            if ch == "]":
+                depth -= 1
+            if ch == "," and depth == 0:
+                parts.append(cur.strip())
+                cur = ""
+            else:
+                cur += ch
+        if cur.strip():
+            parts.append(cur.strip())
+        expr = "h"
+        names = []
+        for k, ty in enumerate(parts):
+            v = "f%d" % k
+            names.append(v)
+            if ty in ("BytecodeRegister", "ConstPoolId", "GlobalId", "ConstId"):
+                expr = "mix(%s, %s.0.to_int64() & 4294967295)" % (expr, v)
+            elif ty == "Int32":
+                expr = "mix(%s, %s.to_int64() & 4294967295)" % (expr, v)
+            elif ty == "UInt8":
+                expr = "mix(%s, %s.to_int64())" % (expr, v)
+            elif ty == "Array[BytecodeRegister]":
+                expr = "mix_regs(%s, %s)" % (expr, v)
+            else:
+                raise MachineryError("instruction.dora: operand type %r of %s is not known to the twin driver" % (ty, name))
+        arms.append("            BytecodeInstruction::%s(%s) => %s," % (name, ", ".join(names), expr))
+    return """use package::bytecode::data::BytecodeRegister;
+use package::bytecode::instruction::BytecodeInstruction;
+use package::bytecode::reader::BytecodeIterator;
+
+fn mix(h: Int64, v: Int64): Int64 { (h ^ v).wrapping_mul(1099511628211) }
+
+fn mix_regs(h0: Int64, regs: Array[BytecodeRegister]): Int64 {
+    let mut h = mix(h0, regs.size());
+    for r in regs { h = mix(h, r.0.to_int64() & 4294967295); }
+    h
+}
+
+@Test
+fn verif_codec_twin() {
+    let data = std::io::File::new("%s").read_as_bytes().get_or_panic();
+    let mut pos = 0;
+    let mut idx = 0;
+    while pos < data.size() {
+        let n = data(pos).to_int64() | (data(pos + 1).to_int64() << 8i32) | (data(pos + 2).to_int64() << 16i32)
+            | (data(pos + 3).to_int64() << 24i32);
+        pos = pos + 4;
+        let code = Array[UInt8]::zero(n);
+        let mut k = 0;
+        while k < n { code(k) = data(pos + k); k = k + 1; }
+        pos = pos + n;
+        let mut h: Int64 = 1469598103934665603;
+        let mut count = 0;
+        for info in BytecodeIterator::new(code) {
+            h = mix(h, info.start);
+            h = mix(h, info.opcode.to_int64());
+            h = mix(h, info.size);
+            h = match info.op {
+%s
+            };
+            count = count + 1;
+        }
+        println("VERIF-TWIN ${idx} ${count} ${h}");
+        idx = idx + 1;
+    }
+}
+""" % (cases_bin, "\n".join(arms))
+
+
+def part_twin(c, harness, bindir, scratch, tier, case=None):
+    """Same bytes, other reader: a scratch copy of pkgs/boots with a generated test module, compiled with the baseline
+    generator as a unit-test binary."""
+    d = os.path.join(scratch, "twin")
+    os.makedirs(d)
+    cases_bin = os.path.join(d, "cases.bin")
+    targs = {"tier": tier, "out-bin": cases_bin, "out-exp": os.path.join(d, "expected.txt"), "out-cases": os.path.join(d, "cases.txt")}
+    if case is not None:
+        targs["case"] = case
+    rep = seq.run_seqmc(harness, "twin-gen", targs, timeout=1800)
+    boots = os.path.join(d, "boots")
+    shutil.copytree(os.path.join(REPO, "pkgs", "boots"), boots)
+    bc = os.path.join(boots, "bytecode.dora")
+    src = open(bc).read()
+    if "pub mod reader;" not in src:
+        raise MachineryError("pkgs/boots/bytecode.dora has no `pub mod reader;` to hang the twin driver next to")
+    open(bc, "w").write(src.replace("pub mod reader;", "pub mod reader;\nmod verif_driver;", 1))
+    open(os.path.join(boots, "bytecode", "verif_driver.dora"), "w").write(dora_twin_module(cases_bin))
+    exe = os.path.join(d, "boots-tests")
+    p = vcommon.run([os.path.join(bindir, "dora"), "compile", "--internal-compile-boots", "--cannon", "--test",
+                     os.path.join(boots, "boots.dora"), "-o", exe], env=tool_env(scratch), timeout=900, cwd=d)
+    if p.returncode != 0:
+        raise MachineryError("the boots package with the twin driver does not compile: %s" % (
+            (p.stderr + p.stdout).decode("utf-8", "replace")[-3000:]))
+    env = tool_env(scratch)
+    env.pop("DORA_FLAGS", None)
+    try:
+        r = subprocess.run([exe, "verif_codec_twin"], stdout=subprocess.PIPE, stderr=subprocess.PIPE, env=env, timeout=1500, cwd=d)
+    except subprocess.TimeoutExpired:
+        raise MachineryError("twin test binary timed out")
+    got = {}
+    for line in r.stdout.decode("utf-8", "replace").splitlines():
+        m = re.search(r"VERIF-TWIN (\d+) (\d+) (-?\d+)", line)   # (the runner prints "test <name> ... " in front of the first)
+        if m:
+            got[int(m.group(1))] = (int(m.group(2)), int(m.group(3)))
+    texts = {}
+    for line in open(os.path.join(d, "cases.txt"), encoding="utf-8"):
+        i, t = line.rstrip("\n").split("\t", 1)
+        texts[int(i)] = t
+    total = 0
+    bad = 0
+    viols = []
+    for line in open(os.path.join(d, "expected.txt")):
+        i, n, h = line.split()
+        i, n, h = int(i), int(n), int(h)
+        total += 1
+        if got.get(i) != (n, h):
+            bad += 1
+            t = texts.get(i, "?")
+            kind = t.split(";")[-2 if t.count(";") else 0].split()[0] if t.strip() else "?"
+            viols.append(("c18:twin:dora-reader-disagrees:%s" % kind,
+                          "case %d (%s): the Rust reader sees %d instructions (checksum %d), the Dora reader %s" % (
+                              i, t[:160], n, h, got.get(i)),
+                          {"part": "twin", "example": t, "rust": [n, h], "dora": got.get(i),
+                           "stderr": r.stderr.decode("utf-8", "replace")[-800:]}))
+    if total == 0 or (not got and total):
+        raise MachineryError("twin test printed nothing (exit %s): %s" % (r.returncode, (r.stderr + r.stdout).decode("utf-8", "replace")[-1500:]))
+    return {"twin_cases": total, "twin_instructions": rep["counters"].get("twin_instructions", 0), "twin_disagreements": bad}, viols
 
 
 # ---------------------------------------------------------------------------------------------
@@ -329,26 +487,49 @@ def two_paths_one(bindir, scratch, ent, backend, gc, full, target=None):
 
 def part_two_paths(c, bindir, pkgs, scratch, tier):
     import core
-    chosen = [e for e in pkgs if e["text"] is not None]
+    gen = [e for e in pkgs if e["text"] is not None]
     rt = [e for e in pkgs if e["name"].startswith("rt:")]
-    chosen += rt[:: (4 if tier == "quick" else 2)]
     jobs = []
-    for e in chosen:
-        if tier == "quick":
-            cfgs = [("cannon", None, True, None), ("cannon", "copy", False, None), ("boots", None, e["name"] in ("hello", "rich"), None),
-                    ("cannon", None, False, "arm64")]
-        else:
-            cfgs = [(b, g, g in (None, "copy"), None) for b in ("cannon", "boots") for g in (None, "zero", "copy", "sweep")]
-            cfgs += [("cannon", None, False, "arm64"), ("boots", None, False, "arm64")]
-        for cfg in cfgs:
-            jobs.append((e, cfg))
+    if tier == "quick":
+        # linking against the debug runtime costs seconds: executables for the generated programs only
+        for e in gen:
+            unit = e["name"].startswith("unit")
+            jobs.append((e, ("cannon", None, True, None)))
+            jobs.append((e, ("cannon", "copy", False, None)))
+            jobs.append((e, ("cannon", None, False, "arm64")))
+            if not unit:
+                jobs.append((e, ("boots", None, e["name"] == "hello", None)))
+        for e in rt[::3]:
+            jobs.append((e, ("cannon", None, False, None)))
+        for e in rt[1::6]:
+            jobs.append((e, ("boots", None, False, None)))
+    else:
+        for e in gen:
+            unit = e["name"].startswith("unit")
+            for g in (None, "zero", "copy", "sweep"):
+                jobs.append((e, ("cannon", g, g in (None, "copy") and e["name"] != "unit3", None)))
+                if not unit or g is None:
+                    jobs.append((e, ("boots", g, not unit and g in (None, "copy"), None)))
+            jobs.append((e, ("cannon", None, False, "arm64")))
+            if not unit:
+                jobs.append((e, ("boots", None, False, "arm64")))
+        for e in rt[::3]:
+            jobs.append((e, ("cannon", None, False, None)))
+        for e in rt[1::3]:
+            jobs.append((e, ("boots", None, False, None)))
+        for e in rt[2::9]:
+            jobs.append((e, ("cannon", "copy", True, None)))
     boots_ent = [e for e in pkgs if e["mode"] == "boots"]
     if boots_ent:
         jobs.append((boots_ent[0], ("cannon", None, False, None)))
 
     def work(job):
         e, (backend, gc, full, target) = job
-        return job, two_paths_one(bindir, scratch, e, backend, gc, full, target)
+        t0 = time.time()
+        r = two_paths_one(bindir, scratch, e, backend, gc, full, target)
+        if time.time() - t0 > 8:
+            vcommon.log("c18: two paths %s %s took %.1fs" % (e["name"], (backend, gc, full, target), time.time() - t0))
+        return job, r
     evals = 0
     for (e, cfg), (problem, n) in core.parallel(work, jobs):
         evals += n
@@ -466,7 +647,7 @@ def norm_msg(m):
     return s[:90]
 
 
-def run_tool(bindir, tool, ent, data, scratch, tag):
+def run_tool(bindir, tool, ent, data, scratch, tag, timeout=TOOL_TIMEOUT):
     """Runs one code generator (or the driver) on damaged package bytes.  Returns dict(kind, detail)."""
     d = os.path.join(scratch, "tool")
     os.makedirs(d, exist_ok=True)
@@ -482,7 +663,7 @@ def run_tool(bindir, tool, ent, data, scratch, tag):
     env = tool_env(scratch)
     try:
         import core
-        r = core.run_group(limited(cmd), TOOL_TIMEOUT, env=env)
+        r = core.run_group(limited(cmd), timeout, env=env)
         rc, err = r.returncode, (r.stderr + r.stdout).decode("utf-8", "replace")
     except subprocess.TimeoutExpired:
         rc, err = "timeout", ""
@@ -494,7 +675,7 @@ def run_tool(bindir, tool, ent, data, scratch, tag):
     lines = [l for l in err.strip().splitlines() if l.strip()]
     first = lines[0] if lines else ""
     if rc == "timeout":
-        return {"kind": "timeout", "detail": "no result within %d s" % TOOL_TIMEOUT, "first": ""}
+        return {"kind": "timeout", "detail": "no result within %d s" % timeout, "first": ""}
     m = re.search(r"panicked at ([^\n]*)\n([^\n]*)", err)
     if m:
         site = re.sub(r":\d+:\d+:?$", "", m.group(1).strip())
@@ -513,7 +694,8 @@ def run_tool(bindir, tool, ent, data, scratch, tag):
 def judge(c, ent, mode, idx, cls, tool, res, sites):
     """Compares what a tool did with what the decoder said about the same bytes."""
     rp = {"part": "damage", "name": ent["name"], "src": ent["src"], "mode": ent["mode"], "text": ent["text"],
-          "damage": mode, "index": idx, "decoder_class": cls, "tool": tool, "tool_result": res}
+          "damage": mode, "index": idx, "decoder_class": cls, "tool": tool, "tool_result": res,
+          "package_sha256": ent.get("sha")}
     where = "%s %s@%d via %s" % (ent["name"], mode, idx, tool)
     kind = res["kind"]
     if kind == "timeout":
@@ -524,7 +706,9 @@ def judge(c, ent, mode, idx, cls, tool, res, sites):
         if kind == "refused":
             want = cls[4:]
             # the driver reports the failing code generator; the generators print the decoder's message
-            if tool != "driver" and not res["detail"].startswith(want[:60]):
+            # (an empty file is refused by the file reader before the decoder sees it)
+            if tool != "driver" and not res["detail"].startswith(want[:60]) and not (
+                    mode == "trunc" and idx == 0 and res["detail"].startswith("missing encoded program input")):
                 c.violation("c18:refusal-message-differs:%s" % tool, "%s: decoder says %r, tool says %r" % (where, want, res["detail"]), rp)
         elif kind == "accepted":
             c.violation("c18:undecodable-package-accepted:%s" % tool, "%s: decoder refuses (%s) but the tool succeeds" % (where, cls), rp)
@@ -552,14 +736,14 @@ def part_damage(c, harness, bindir, pkgs, scratch, tier):
         plans.append((byname["rich"], {"head": 1024, "tail": 1024, "stride": 509}, {"head": 256, "tail": 256, "stride": 1999}))
         plans.append((byname["boots"], {"head": 512, "tail": 512, "stride": 8192}, {"head": 64, "tail": 64, "stride": 65521}))
     else:
-        plans.append((byname["hello"], {"head": 0, "tail": 0, "stride": 1}, {"head": 8192, "tail": 8192, "stride": 3}))
-        plans.append((byname["rich"], {"head": 8192, "tail": 8192, "stride": 64}, {"head": 4096, "tail": 4096, "stride": 97}))
+        plans.append((byname["hello"], {"head": 0, "tail": 0, "stride": 1}, {"head": 8192, "tail": 8192, "stride": 5}))
+        plans.append((byname["rich"], {"head": 8192, "tail": 8192, "stride": 64}, {"head": 4096, "tail": 4096, "stride": 499}))
         for e in unit[:1]:
-            plans.append((e, {"head": 8192, "tail": 8192, "stride": 64}, {"head": 4096, "tail": 4096, "stride": 499}))
+            plans.append((e, {"head": 8192, "tail": 8192, "stride": 64}, {"head": 1024, "tail": 1024, "stride": 1999}))
         rt = [e for e in pkgs if e["name"].startswith("rt:")]
         for e in rt[:2]:
-            plans.append((e, {"head": 8192, "tail": 8192, "stride": 64}, {"head": 4096, "tail": 4096, "stride": 997}))
-        plans.append((byname["boots"], {"head": 8192, "tail": 8192, "stride": 64}, {"head": 4096, "tail": 4096, "stride": 1009}))
+            plans.append((e, {"head": 8192, "tail": 8192, "stride": 64}, {"head": 512, "tail": 512, "stride": 1999}))
+        plans.append((byname["boots"], {"head": 8192, "tail": 8192, "stride": 64}, {"head": 2048, "tail": 512, "stride": 8191}))
     cov = {"truncation_points": 0, "bit_flips": 0, "decoder_outcome_classes": {}, "decoder_aborts": 0,
            "tool_runs": 0, "tool_outcomes": {}, "damage_plan": [], "flips_decoding_to_another_program": 0}
     sites = {}
@@ -584,7 +768,7 @@ def part_damage(c, harness, bindir, pkgs, scratch, tier):
                 if cls in ("ok-same", "ok-noncanonical"):
                     cov["flips_decoding_to_another_program"] += 1
                 rp = {"part": "damage", "name": ent["name"], "src": ent["src"], "mode": ent["mode"], "text": ent["text"],
-                      "damage": mode, "index": i, "decoder_class": cls, "tool": None}
+                      "damage": mode, "index": i, "decoder_class": cls, "tool": None, "package_sha256": ent.get("sha")}
                 if cls == "ok-diff":
                     c.violation("c18:decode:wrong-program", "%s %s@%d decodes, but re-encoding the result gives other bytes" % (
                         ent["name"], mode, i), rp)
@@ -599,8 +783,9 @@ def part_damage(c, harness, bindir, pkgs, scratch, tier):
             # every distinct class (two representatives) through both generators and the driver
             for cls, idxs in firsts.items():
                 for i in idxs:
-                    # (the optimizing generator compiling its own 1 MB package takes minutes: baseline only there)
-                    for tool in (("cannon", "driver") if ent["mode"] == "boots" else ("cannon", "boots", "driver")):
+                    # (the optimizing generator needs 10 s and more for packages of generated units and minutes for its
+                    # own 1 MB package: baseline generator only for packages above 150 KB)
+                    for tool in (("cannon", "driver") if ent["size"] > 150000 else ("cannon", "boots", "driver")):
                         tool_jobs.append((ent, orig, mode, i, cls, tool))
             # plus a declared subset of all cases through the baseline generator (and a thinner one through boots)
             allidx = sorted(classes)
@@ -610,7 +795,7 @@ def part_damage(c, harness, bindir, pkgs, scratch, tier):
             for n, i in enumerate(allidx):
                 if n % sub_c == 0:
                     tool_jobs.append((ent, orig, mode, i, classes[i], "cannon"))
-                if n % (sub_c * 8) == 1 and ent["mode"] != "boots":
+                if n % (sub_c * 8) == 1 and ent["size"] <= 150000:
                     tool_jobs.append((ent, orig, mode, i, classes[i], "boots"))
             if len(samples) < 6 and allidx:
                 i = allidx[len(allidx) // 2]
@@ -627,13 +812,27 @@ def part_damage(c, harness, bindir, pkgs, scratch, tier):
         ent, orig, mode, idx, cls, tool = job
         tag = "%s-%s-%d-%s-%d" % (re.sub(r"[^A-Za-z0-9]+", "_", ent["name"]), mode, idx, tool, os.getpid())
         return job, run_tool(bindir, tool, ent, damaged_bytes(orig, mode, idx), scratch, tag)
-    for (ent, orig, mode, idx, cls, tool), res in core.parallel(work, uniq):
+    results = core.parallel(work, uniq)
+    # replay first: a run that did not finish or died without the decoder's message is repeated on its own (the
+    # machine may just have been busy); only what happens twice is reported
+    confirmed = []
+    for job, res in results:
+        if res["kind"] in ("timeout", "signal", "silent-failure"):
+            ent, orig, mode, idx, cls, tool = job
+            tag = "again-%s-%s-%d-%s" % (re.sub(r"[^A-Za-z0-9]+", "_", ent["name"]), mode, idx, tool)
+            res2 = run_tool(bindir, tool, ent, damaged_bytes(orig, mode, idx), scratch, tag, timeout=10 * TOOL_TIMEOUT)
+            if res2["kind"] != res["kind"]:
+                cov["tool_runs_not_reproduced"] = cov.get("tool_runs_not_reproduced", 0) + 1
+            res = res2
+        confirmed.append((job, res))
+    for (ent, orig, mode, idx, cls, tool), res in confirmed:
         cov["tool_runs"] += 1
         k = "%s:%s" % (tool, res["kind"])
         cov["tool_outcomes"][k] = cov["tool_outcomes"].get(k, 0) + 1
         if cls.startswith("died:"):
             rp = {"part": "damage", "name": ent["name"], "src": ent["src"], "mode": ent["mode"], "text": ent["text"],
-                  "damage": mode, "index": idx, "decoder_class": cls, "tool": tool, "tool_result": res}
+                  "damage": mode, "index": idx, "decoder_class": cls, "tool": tool, "tool_result": res,
+                  "package_sha256": ent.get("sha")}
             if cls == "died:hang":
                 c.violation("c18:decode:hang", "%s %s@%d: the decoder does not finish" % (ent["name"], mode, idx), rp)
             elif res["kind"] in ("alloc-abort", "signal", "panic", "timeout"):
@@ -651,15 +850,64 @@ def part_damage(c, harness, bindir, pkgs, scratch, tier):
 
 def main(tier):
     c = vcommon.Check("C18", tier, "fault_enumeration")
+    # VERIF_C18_PARTS=codec[,twin,program,two-paths,damage] restricts a run to some parts (debugging aid; the evidence then
+    # says so and is marked non-exhaustive)
+    parts = [p for p in os.environ.get("VERIF_C18_PARTS", "codec,twin,program,two-paths,damage").split(",") if p]
     harness = build_harness()
-    bindir = vcommon.build_plain(need_boots=True)
+    need_tools = any(p in parts for p in ("program", "two-paths", "damage"))
+    bindir = vcommon.build_plain(need_boots=True) if need_tools else None
     scratch = vcommon.scratch_dir("c18")
     try:
-        cov1, samples = part_codec(c, harness, tier)
-        pkgs, skipped = make_packages(c, bindir, scratch, tier)
-        cov2 = part_program(c, harness, pkgs, scratch)
-        cov3 = part_two_paths(c, bindir, pkgs, scratch, tier)
-        cov4, dsamples = part_damage(c, harness, bindir, pkgs, scratch, tier)
+        t = [time.time()]
+
+        def lap(what):
+            t.append(time.time())
+            vcommon.log("c18: %s %.1fs" % (what, t[-1] - t[-2]))
+        cov1 = {"codec_cases": 0, "codec_nontrivial": 0, "uncovered": []}
+        cov2 = {"packages": 0}
+        cov3 = {"two_path_comparisons": 0}
+        cov4 = {"truncation_points": 0, "bit_flips": 0, "tool_runs": 0}
+        samples, dsamples, pkgs, skipped = [], [], [], []
+        if "codec" in parts:
+            cov1, samples = part_codec(c, harness, tier)
+            lap("codec")
+        twin_thread = None
+        twin_result = {}
+        if "twin" in parts:
+            # the Dora reader is Dora code compiled by the baseline generator either way; the toolchain without debug
+            # assertions builds and runs the 370 unit tests of the boots package several times faster.
+            # Runs beside the program/two-path parts (one core).
+            import threading
+            fastdir = vcommon.build_fast(need_boots=False)
+
+            def twin_work():
+                try:
+                    twin_result["cov"], twin_result["viols"] = part_twin(c, harness, fastdir, scratch, tier)
+                except BaseException as e:  # re-raised in the main thread
+                    twin_result["exc"] = e
+            twin_thread = threading.Thread(target=twin_work)
+            twin_thread.start()
+        if need_tools:
+            pkgs, skipped = make_packages(c, bindir, scratch, tier)
+            lap("packages (%d)" % len(pkgs))
+        if "program" in parts:
+            cov2 = part_program(c, harness, pkgs, scratch)
+            lap("program codec")
+        if "two-paths" in parts:
+            cov3 = part_two_paths(c, bindir, pkgs, scratch, tier)
+            lap("two paths")
+        if "damage" in parts:
+            cov4, dsamples = part_damage(c, harness, bindir, pkgs, scratch, tier)
+            lap("damage")
+        cov5 = {"twin_cases": 0}
+        if twin_thread:
+            twin_thread.join()
+            if "exc" in twin_result:
+                raise twin_result["exc"]
+            cov5 = twin_result["cov"]
+            for key, what, rp in twin_result["viols"]:
+                c.violation(key, what, rp)
+            lap("twin (joined)")
         if tier == "thorough" and cov1["uncovered"]:
             raise MachineryError("emit methods in writer.rs that the codec driver does not drive: %s" % cov1["uncovered"])
         faults = cov4["truncation_points"] + cov4["bit_flips"]
@@ -668,8 +916,9 @@ def main(tier):
         cov.update(cov2)
         cov.update(cov3)
         cov.update(cov4)
+        cov.update(cov5)
         cov.update({
-            "evaluations": cov1["codec_cases"] + cov2["packages"] + cov3["two_path_comparisons"] + faults + cov4["tool_runs"],
+            "evaluations": cov1["codec_cases"] + cov5["twin_cases"] + cov2["packages"] + cov3["two_path_comparisons"] + faults + cov4["tool_runs"],
             "fault_points_enumerated": faults,
             "distinct_nontrivial": cov1["codec_nontrivial"] + faults,
             "rule": "codec: the product space declared in engines/seqmc/src/codec.rs::categories (every emit method x all "
@@ -682,7 +931,8 @@ def main(tier):
                     "the original). Every distinct decoder outcome class and every 128th/256th case additionally goes "
                     "through the real code generator processes.",
             "samples": samples[:6] + dsamples,
-            "exhaustive": True,
+            "exhaustive": len(parts) == 5,
+            "parts_run": parts,
             "package_names": [e["name"] for e in pkgs][:40],
             "corpus_files_not_standalone": len(skipped),
             "address_space_limit_bytes": AS_LIMIT,
@@ -717,14 +967,32 @@ def replay(path):
             if not bad:
                 print("case now reads back as emitted")
             return 1 if bad else 0
+        if part == "twin":
+            cov, viols = part_twin(None, harness, vcommon.build_fast(need_boots=False), scratch, "quick", case=r["example"])
+            for key, what, _ in viols:
+                print("VIOLATION property=C18 replay=%s\n  key=%s :: %s" % (path, key, what[:600]))
+            if not viols:
+                print("both readers agree on: %s" % r["example"][:300])
+            return 1 if viols else 0
         bindir = vcommon.build_plain(need_boots=True)
         ent = {"name": r["name"], "src": r["src"], "mode": r["mode"], "text": r.get("text")}
-        if ent["text"] is not None:
-            ent["src"] = os.path.join(scratch, "replay.dora")
+        made = None
+        if ent["text"] is not None and not os.path.exists(ent["src"]):
+            # generated program: the package embeds the path of its source, so put it where it was
+            top = os.path.dirname(os.path.dirname(ent["src"]))
+            made = top if not os.path.exists(top) else None
+            os.makedirs(os.path.dirname(ent["src"]), exist_ok=True)
             open(ent["src"], "w").write(ent["text"])
-        ent["pkg"], err = compile_package(bindir, scratch, ent)
+        try:
+            ent["pkg"], err = compile_package(bindir, scratch, ent)
+        finally:
+            if made:
+                shutil.rmtree(made, ignore_errors=True)
         if ent["pkg"] is None:
             raise MachineryError("cannot rebuild the package: " + err)
+        ent["size"] = os.path.getsize(ent["pkg"])
+        if r.get("package_sha256") and sha(ent["pkg"]) != r["package_sha256"]:
+            print("note: the rebuilt package differs from the recorded one (the tree changed); indices may have moved")
         if part == "program":
             lst = os.path.join(scratch, "one.tsv")
             open(lst, "w").write("%s\t%s\t%s\t%s\n" % (ent["name"], ent["pkg"], ent["src"], ent["mode"]))
